@@ -54,6 +54,18 @@ func vhNotMagic(p []byte) {
 	}
 }
 
+type vhSegReader struct {
+	r   io.Reader
+	seg int
+}
+
+func (s *vhSegReader) Read(p []byte) (int, error) {
+	if len(p) > s.seg {
+		p = p[:s.seg]
+	}
+	return s.r.Read(p)
+}
+
 func VH_C16_FramingRoundTrip(L, framed int) {
 	payload := vhBytes("payload", L)
 	if framed == 0 {
@@ -76,7 +88,13 @@ func VH_C16_FramingRoundTrip(L, framed int) {
 		vhAssert(vhBytesEq(stream, payload), "unframed-identity-stream-is-the-payload")
 	}
 	// read it back through the reader (header detection on the first 16 bytes only)
-	r := &xerialReader{reader: bytes.NewReader(stream)}
+	// the source delivers the stream whole, one byte at a time or three bytes at a time (a network connection
+	// returns what has arrived: a length prefix may come in pieces)
+	var src io.Reader = bytes.NewReader(stream)
+	if seg := []int{0, 1, 3}[vhChoose("source_segment", 3)]; seg > 0 {
+		src = &vhSegReader{r: src, seg: seg}
+	}
+	r := &xerialReader{reader: src}
 	bufSize := 1 + vhChoose("read_buffer", 3)*7
 	var out []byte
 	buf := make([]byte, bufSize)
